@@ -809,6 +809,29 @@ def honest_monitor(case, recs, log, ctx):
                 if a is not None and conn_at.get(a, (None,))[0] == int(p[1]):
                     del conn_at[a]
 
+def once_monitor(case, recs, ctx):
+    """at most once at the handler: over a whole run of the real loop no connection object hands the same message sequence number to
+    handle_message twice - whatever is duplicated, replayed or stacked behind a challenge response"""
+    seen = {}
+    for i, rec in enumerate(recs):
+        for e in rec["events"]:
+            p = e.split(":")
+            if p[0] != "msg":
+                continue
+            key = (p[1], p[2])
+            if key in seen:
+                ctx.failure("message-handed-to-handler-twice",
+                            "iteration %d: connection #%s handed message %s to handle_message again (first in iteration %d); handler events "
+                            "of the two iterations: %s / %s" % (i, p[1], p[2], seen[key],
+                                                                 [x for x in recs[seen[key]]["events"] if not x.startswith("send")][:6],
+                                                                 [x for x in rec["events"] if not x.startswith("send")][:6]),
+                            {"case": case, "at": len(case) - 2, "iteration": i})
+                return True
+            seen[key] = i
+            ctx.count("loop:message-handed-over-once")
+    return False
+
+
 def silence_monitor(case, recs, ctx):
     """dead peers are detected: a connected client from whose address nothing new has arrived for connection_timeout (copies of datagrams
     the server already has, damaged copies and forgeries do not count) has its disconnect event by the next sweep"""
